@@ -575,6 +575,11 @@ public:
         new_pre |= m_iterator->get_post(prev);
       }
       crab::CrabStats::stop("Fixpo.join_predecessors");
+      if (m_assumptions && !m_assumptions->empty()) {
+        // the assumption at the head also holds for the states that
+        // come back along the back edges
+        new_pre = strengthen(head, new_pre);
+      }
       crab::CrabStats::resume("Fixpo.check_fixpoint");
       bool fixpoint_reached = new_pre <= pre;
       crab::CrabStats::stop("Fixpo.check_fixpoint");
@@ -609,6 +614,11 @@ public:
         new_pre |= m_iterator->get_post(prev);
       }
       crab::CrabStats::stop("Fixpo.join_predecessors");
+      if (m_assumptions && !m_assumptions->empty()) {
+        // the assumption at the head also holds for the states that
+        // come back along the back edges
+        new_pre = strengthen(head, new_pre);
+      }
       crab::CrabStats::resume("Fixpo.check_fixpoint");
       bool no_more_refinement = pre <= new_pre;
       crab::CrabStats::stop("Fixpo.check_fixpoint");
